@@ -797,6 +797,9 @@ func (in *instr) callRewrite(c *ast.CallExpr) ast.Expr {
 	case "(*sync.Map).LoadAndDelete":
 		in.count("R7.syncmap")
 		return simcall("SMLoadAndDelete", in.addrOfRecv(s), c.Args[0], site)
+	case "(reflect.Value).MapKeys":
+		in.count("R6.mapkeys")
+		return simcall("MapKeys", s.X)
 	case "time.Now":
 		in.count("R9.time")
 		return simcall("Now", site)
